@@ -478,6 +478,20 @@ def rule_r5(ctx) -> List[R.Inst]:
     for n in walk_no_nested(fn.node):
         if isinstance(n, ast.BinOp) and isinstance(n.op, (ast.BitAnd, ast.BitOr, ast.RShift, ast.LShift)):
             for side in (n.left, n.right):
+                # the column through a local bound once (bits = F["c"].to_numpy()) and representation changes that keep the dtype
+                for _ in range(3):
+                    if isinstance(side, ast.Name):
+                        ds_ = [x.value for x in walk_no_nested(fn.node) if isinstance(x, ast.Assign) and len(x.targets) == 1 and
+                               isinstance(x.targets[0], ast.Name) and x.targets[0].id == side.id]
+                        if len(ds_) != 1:
+                            break
+                        side = ds_[0]
+                    elif isinstance(side, ast.Call) and isinstance(side.func, ast.Attribute) and side.func.attr in ("to_numpy", "copy") and not side.args:
+                        side = side.func.value
+                    elif isinstance(side, ast.Attribute) and side.attr in ("values", "array"):
+                        side = side.value
+                    else:
+                        break
                 if isinstance(side, ast.Subscript) and isinstance(side.slice, ast.Constant) and side.slice.value in prone:
                     c = side.slice.value
                     key = f"bit-test:{c}@{k}"
